@@ -8,6 +8,7 @@
   algorithms (Rng/Spec.lean).
 -/
 import CimbaModel.Rng.Lemmas
+import CimbaModel.Generated.FpEnv
 
 set_option linter.unusedSimpArgs false
 
@@ -271,6 +272,21 @@ example : ∃ (o : FloatOps Int) (valid : Int → Prop),
      le := fun a b => decide (a ≤ b), gt := fun a b => decide (a > b), ge := fun a b => decide (a ≥ b) },
    fun x => 0 < x,
    by intro x hx; simp; omega, by intro x y _ h; simpa using h, by intro x hx; simp; omega, by intro x hx; simp; omega, by decide⟩
+
+/-! ## 6. No thread computes with a different floating-point arithmetic
+
+  The samplers are double computations; their values depend on the rounding mode and on the flush-to-zero / denormals-are-zero
+  bits of MXCSR, which are per thread (and per coroutine: the context switch saves and restores MXCSR).  Every place where the
+  library writes the control word is regenerated from the sources (Generated/FpEnv.lean: `_mm_setcsr` in
+  `cimba_run_experiment`, inherited by the worker threads and left behind on the calling thread; the MXCSR a new coroutine starts
+  with).  The theorem: each of them changes exception masks only — rounding stays to-nearest, subnormals are kept — so a
+  worker thread, the main thread before and after an experiment, a plain pthread and a coroutine all compute the same values. -/
+
+theorem fp_control_preserves_values : fpControlWrites.all FpWrite.valuePreserving = true := by decide
+
+/- the inventory is not empty, and the predicate does reject a flush-to-zero / denormals-are-zero setting -/
+example : fpControlWrites.any (fun w => w.function == "cimba_run_experiment") = true := by decide
+example : FpWrite.valuePreserving { file := "", function := "", kind := "mxcsr", value := 0x1d00 ||| 0x8000 ||| 0x0040 } = false := by decide
 
 /-! ## Non-vacuity and concrete values -/
 
